@@ -4,6 +4,7 @@ import (
 	"fmt"
 	"go/ast"
 	"go/token"
+	"sort"
 	"strings"
 )
 
@@ -72,6 +73,9 @@ func (f *fn) expr(x ast.Expr, e *env, want *ty) val {
 				return val{text: "[]", t: want}
 			}
 			f.fail(x, "nil for a %s", want.lean())
+		}
+		if text, t := f.globalTable(x); t != nil {
+			return val{text: text, t: t}
 		}
 		f.fail(x, "identifier %s is not a local variable", x.Name)
 	case *ast.UnaryExpr:
@@ -631,4 +635,83 @@ func stripPos(e ast.Expr) string {
 		return stripPos(e.X) + "." + e.Sel.Name
 	}
 	return fmt.Sprintf("?%p", e)
+}
+
+// a package-level `var T = [...]int{literals}` (or `[]int{…}`) that no function of the package assigns to: its value
+func (f *fn) globalTable(id *ast.Ident) (string, *ty) {
+	vs, ok := f.p.vars[id.Name]
+	if !ok {
+		return "", nil
+	}
+	cl, ok := vs.Values[0].(*ast.CompositeLit)
+	if !ok || cl.Type == nil {
+		return "", nil
+	}
+	t := f.typeOf(cl.Type, f.p, f.p.vfile[id.Name])
+	if t == nil || t.k != kSlice || t.elem.k != kInt {
+		return "", nil
+	}
+	var els []string
+	for _, el := range cl.Elts {
+		l, ok := el.(*ast.BasicLit)
+		if !ok || l.Kind != token.INT || !reDecimal(l.Value) {
+			return "", nil
+		}
+		els = append(els, l.Value)
+	}
+	// the table must be constant: no assignment to it (or to one of its elements) anywhere in the package
+	names := make([]string, 0, len(f.p.files))
+	for n := range f.p.files {
+		names = append(names, n)
+	}
+	sort.Strings(names)
+	for _, fnm := range names {
+		var bad ast.Node
+		ast.Inspect(f.p.files[fnm], func(n ast.Node) bool {
+			check := func(l ast.Expr) {
+				for {
+					switch x := unparen(l).(type) {
+					case *ast.IndexExpr:
+						l = x.X
+						continue
+					case *ast.SliceExpr:
+						l = x.X
+						continue
+					case *ast.Ident:
+						if x.Name == id.Name && bad == nil {
+							bad = n
+						}
+					}
+					return
+				}
+			}
+			switch n := n.(type) {
+			case *ast.AssignStmt:
+				for _, l := range n.Lhs {
+					check(l)
+				}
+			case *ast.IncDecStmt:
+				check(n.X)
+			case *ast.UnaryExpr:
+				if n.Op == token.AND {
+					check(n.X)
+				}
+			case *ast.RangeStmt:
+				if n.Key != nil {
+					check(n.Key)
+				}
+				if n.Value != nil {
+					check(n.Value)
+				}
+			}
+			return true
+		})
+		if bad != nil {
+			pos := f.w.fset.Position(bad.Pos())
+			f.fail(id, "package variable %s is assigned (or its address taken) at %s/%s:%d, so it is not the constant table of its declaration;",
+				id.Name, f.p.dir, baseName(pos.Filename), pos.Line)
+		}
+	}
+	f.note("package variable " + id.Name + " is read as the constant table of its declaration (no code of the package assigns to it; other packages are not scanned)")
+	return "[" + strings.Join(els, ", ") + "]", t
 }
